@@ -140,8 +140,10 @@ def _native_dir():
     return d, os.path.join(BUILD, "native-target-" + tagname)
 
 
-def build_native(profile="release"):
-    """(Re)build the native harness against the repo working tree. Returns path of the binary."""
+def build_native(profile="release", binonly=False):
+    """(Re)build the native harness against the repo working tree. Returns path of the binary.
+    binonly: only the module that drives the built solstat binary (fallback of C14 / C18 when a change to the library's
+    public API keeps the other modules from compiling)."""
     ensure_dirs()
     ctx = C.Ctx()
     eg = ptspec.ExecGen(ctx.tt)
@@ -156,6 +158,10 @@ def build_native(profile="release"):
     if "solstat_verif" not in flags:
         env["RUSTFLAGS"] = (flags + " --cfg solstat_verif").strip()
     cmd = ["cargo", "build", "--offline", "--profile", profile]
+    if binonly:
+        cmd += ["--features", "binonly"]
+        ntarget = ntarget + "-binonly"
+        env["CARGO_TARGET_DIR"] = ntarget
     t0 = time.time()
     p = subprocess.run(cmd, cwd=ndir, env=env, capture_output=True, text=True)
     if p.returncode != 0:
@@ -301,7 +307,10 @@ def replay(path):
     if not ce:
         print("no concrete failing input was found for this obligation (no-failing-input-found)")
         return 0
-    binary, _ = build_native()
+    try:
+        binary, _ = build_native()
+    except BuildError:
+        binary, _ = build_native(binonly=True)
     argv = []
     tmpfiles = []
     for a in ce:
